@@ -107,6 +107,8 @@ def setup():
     from androguard.cli import main
     from androguard.core import bytecode
     misc.re = SymRe
+    from ..symre import wrap_compiled
+    wrap_compiled(misc)
     misc.os = RecOS
     main.os = RecOS
     main.open = rec_open
